@@ -93,6 +93,7 @@ type ContractSet struct {
 	GuardDecls [][2]string // pkg, "Type.mu: f1, f2"
 	ctxPkg     string
 	GhostFields map[string]*GhostField
+	GhostVars   map[string]*GhostField
 }
 
 type PkgCensus struct {
@@ -101,7 +102,7 @@ type PkgCensus struct {
 }
 
 func NewContractSet() *ContractSet {
-	return &ContractSet{ByKey: map[string]*Contract{}, Ghosts: map[string]*GhostFunc{}, GhostFields: map[string]*GhostField{}}
+	return &ContractSet{ByKey: map[string]*Contract{}, Ghosts: map[string]*GhostFunc{}, GhostFields: map[string]*GhostField{}, GhostVars: map[string]*GhostField{}}
 }
 
 var reSpecLine = regexp.MustCompile(`^\s*//\s?@\s?(.*)$`)
@@ -224,6 +225,15 @@ func (cs *ContractSet) directive(cur **Contract, body, path string, ln int, pkgP
 		// ghost func name(p T, q U) R [= expr]
 		if pkgPath == "" {
 			pkgPath = cs.ctxPkg
+		}
+		if strings.HasPrefix(rest, "var ") {
+			// ghost var <name> <gotype>: global ghost state
+			fs := strings.Fields(rest)
+			if len(fs) != 3 {
+				return fail("ghost var <name> <gotype>")
+			}
+			cs.GhostVars[fs[1]] = &GhostField{Name: fs[1], GoType: fs[2], Pkg: pkgPath}
+			return nil
 		}
 		if strings.HasPrefix(rest, "field ") {
 			// ghost field <qualified type> <name> <go type>
